@@ -62,6 +62,44 @@ type GS struct {
 	LastOutgoingActions *OutReqActions
 	// CancelCompletes says whether Cancel ends the request's channels (as graphsync does)
 	CancelCompletes bool
+
+	// loop models the run loop of graphsync's response manager: Pause and Unpause are
+	// messages to that loop and return when it has served them, and the loop also delivers
+	// the notifications that arrive from the network (requestor cancelled). Whatever was
+	// queued with QueueOnLoop is handled by the loop before the next Pause / Unpause.
+	loop      sync.Mutex
+	loopQueue []func()
+}
+
+// QueueOnLoop queues work the run loop handles before it serves the next Pause / Unpause
+// (e.g. the delivery of a requestor-cancelled notification that arrived first).
+func (g *GS) QueueOnLoop(f func()) {
+	g.mu.Lock()
+	g.loopQueue = append(g.loopQueue, f)
+	g.mu.Unlock()
+}
+
+// OnLoop runs f on the run loop now (after what was queued before).
+func (g *GS) OnLoop(f func()) {
+	g.QueueOnLoop(f)
+	g.serveLoop(nil)
+}
+
+// serveLoop handles the queued work and then the call c (nil: none) on the loop.
+func (g *GS) serveLoop(c *GSCall) error {
+	g.loop.Lock()
+	defer g.loop.Unlock()
+	g.mu.Lock()
+	q := g.loopQueue
+	g.loopQueue = nil
+	g.mu.Unlock()
+	for _, f := range q {
+		f()
+	}
+	if c == nil {
+		return nil
+	}
+	return g.rec(*c)
 }
 
 var _ graphsync.GraphExchange = (*GS)(nil)
@@ -258,11 +296,11 @@ func (g *GS) RegisterReceiverNetworkErrorListener(l graphsync.OnReceiverNetworkE
 }
 
 func (g *GS) Pause(ctx context.Context, id graphsync.RequestID) error {
-	return g.rec(GSCall{Kind: "pause", ID: id})
+	return g.serveLoop(&GSCall{Kind: "pause", ID: id})
 }
 
 func (g *GS) Unpause(ctx context.Context, id graphsync.RequestID, exts ...graphsync.ExtensionData) error {
-	return g.rec(GSCall{Kind: "unpause", ID: id, Exts: exts})
+	return g.serveLoop(&GSCall{Kind: "unpause", ID: id, Exts: exts})
 }
 
 func (g *GS) Cancel(ctx context.Context, id graphsync.RequestID) error {
